@@ -242,23 +242,38 @@ func storeSlashingProtection(ctx context.Context, protection *SlashingProtection
 			}
 		}
 
-		existingKeyProtection, exists := existingProtection[key]
-		if exists {
-			// We already have an entry; only add this if it contains newer data.
-			if existingKeyProtection.HighestAttestedSourceEpoch <= keyProtection.HighestAttestedSourceEpoch &&
-				existingKeyProtection.HighestAttestedTargetEpoch <= keyProtection.HighestAttestedTargetEpoch &&
-				existingKeyProtection.HighestProposedSlot <= keyProtection.HighestProposedSlot {
-				protectionMap[key] = keyProtection
-			} else {
-				fmt.Fprintf(os.Stdout, "Existing entry for public key %#x contains newer data; not importing\n", key)
-			}
-		} else {
-			protectionMap[key] = keyProtection
+		// Merge with any earlier entry for this key in the file and with the existing entry in the
+		// database, field by field, so that an import never lowers a value and never discards a
+		// newer value because another field of the same entry is older.
+		if earlierKeyProtection, exists := protectionMap[key]; exists {
+			mergeSlashingProtection(keyProtection, earlierKeyProtection)
 		}
+		if existingKeyProtection, exists := existingProtection[key]; exists {
+			if existingKeyProtection.HighestAttestedSourceEpoch > keyProtection.HighestAttestedSourceEpoch ||
+				existingKeyProtection.HighestAttestedTargetEpoch > keyProtection.HighestAttestedTargetEpoch ||
+				existingKeyProtection.HighestProposedSlot > keyProtection.HighestProposedSlot {
+				fmt.Fprintf(os.Stdout, "Existing entry for public key %#x contains newer data; retaining it\n", key)
+			}
+			mergeSlashingProtection(keyProtection, existingKeyProtection)
+		}
+		protectionMap[key] = keyProtection
 	}
 	if err := rulesSvc.ImportSlashingProtection(ctx, protectionMap); err != nil {
 		return errors.Wrap(err, "failed to obtain slashing protection")
 	}
 
 	return nil
+}
+
+// mergeSlashingProtection raises each field of dst to that of src where src is higher.
+func mergeSlashingProtection(dst *rules.SlashingProtection, src *rules.SlashingProtection) {
+	if src.HighestAttestedSourceEpoch > dst.HighestAttestedSourceEpoch {
+		dst.HighestAttestedSourceEpoch = src.HighestAttestedSourceEpoch
+	}
+	if src.HighestAttestedTargetEpoch > dst.HighestAttestedTargetEpoch {
+		dst.HighestAttestedTargetEpoch = src.HighestAttestedTargetEpoch
+	}
+	if src.HighestProposedSlot > dst.HighestProposedSlot {
+		dst.HighestProposedSlot = src.HighestProposedSlot
+	}
 }
